@@ -468,8 +468,12 @@ def build_impl(q, case, casts=None):
             meas.append(m)
     objs = []
     routes = case.get("routes") or {}
+    late = set(case.get("late") or [])
     for n in case["nodes"]:
         t = n[0]
+        if len(objs) in late:
+            objs.append(None)       # made later, in the middle of the history (build_node)
+            continue
         rt = routes.get(str(len(objs)))
         if rt is not None and t in ("un", "deg", "bin"):
             args = [_container(q, f, objs[i], rt["L"], rt["k"]) for f, i in zip(rt["forms"], n[2:])]
@@ -534,6 +538,22 @@ def build_impl(q, case, casts=None):
     for i, e in (case.get("revise") or {}).items():
         meas[int(i)].error = unbits(e)
     return objs, meas
+
+
+def build_node(q, case, objs, idx):
+    """apply the operator of node idx to the operand OBJECTS that exist now (a result created in the
+    middle of a session)"""
+    n = case["nodes"][idx]
+    t, op = n[0], n[1]
+    if t == "un":
+        a = objs[n[2]]
+        return -a if op == "neg" else q.log(a) if op == "ln" else getattr(q, op)(a)
+    if t == "deg":
+        return getattr(q, op)(objs[n[2]])
+    if t == "bin":
+        a, b = objs[n[2]], objs[n[3]]
+        return q.log(a, b) if op == "log" else PYOPS[op](a, b)
+    raise ValueError(t)
 
 
 def ref_eval_all(case, vals):
